@@ -186,7 +186,7 @@ public:
             boxPos[idxDim] = 0;
         }
 
-        while(inMindex >= mask) {
+        while(0 < mask && inMindex >= mask) {
             for(long int idxDim = Dim-1 ; idxDim > 0 ; --idxDim){
                 boxPos[idxDim] |= static_cast<long int>(inMindex & mask);
                 inMindex >>= 1;
@@ -223,16 +223,18 @@ public:
         std::array<IndexType,Dim> mcoord;
         for(long int idxDim = 0 ; idxDim < Dim ; ++idxDim){
             mcoord[idxDim] = (inBoxPos[idxDim] << (Dim - idxDim - 1));
-            shouldContinue |= ((mask << (Dim - idxDim - 1)) <= mcoord[idxDim]);
+            shouldContinue |= (0 < inBoxPos[idxDim]);
         }
 
+        long int idxBit = 0;
         while(shouldContinue){
             shouldContinue = false;
+            idxBit += 1;
             for(long int idxDim = Dim-1 ; idxDim >= 0 ; --idxDim){
                 index |= (mcoord[idxDim] & mask);
                 mask <<= 1;
                 mcoord[idxDim] <<= (Dim-1);
-                shouldContinue |= ((mask << (Dim - idxDim - 1)) <= mcoord[idxDim]);
+                shouldContinue |= (0 < (inBoxPos[idxDim] >> idxBit));
             }
         }
 
